@@ -65,10 +65,13 @@ func (p *Parser) rune() rune {
 	if p.r == '\n' || p.r == escNewl {
 		// p.r instead of b so that newline
 		// character positions don't have col 0.
+		// The first column of a line is 1, no matter how wide
+		// the newline was; "\\\r\n" is wider than "\\\n".
 		p.line++
-		p.col = 0
+		p.col = 1
+	} else {
+		p.col += int64(p.w)
 	}
-	p.col += int64(p.w)
 	bquotes := 0
 retry:
 	if p.bsp >= uint(len(p.bs)) && p.fill() == 0 {
